@@ -174,7 +174,7 @@ def shapes():
         out.append(("not", mk(k, 1) if k != "not" else ("not", next(atoms))))
     # depth 3: a decision made at the right edge of a left operand, and under a group
     more = []
-    for t in out[:60]:
+    for t in out:   # every base shape (the first 60 only left `x == (not y) and z` unexamined: seeded change C04-2)
         more.append(("and", t, "z"))
         more.append(("or", "z", t))
         more.append(("==", t, "z"))
